@@ -7,6 +7,7 @@ package mc
 
 import (
 	"fmt"
+	"math"
 	"strings"
 	"testing"
 
@@ -163,6 +164,33 @@ func c01Alphabet(subjects []string, cap uint32, full bool) func(w *world) []cev 
 	}
 }
 
+// c01AlphabetTop: the same kinds of claims at absolute incarnations around the largest
+// representable one (a member gets there legitimately: a refutation jumps above whatever
+// incarnation the accusation named).
+func c01AlphabetTop(w *world) []cev {
+	var out []cev
+	for _, inc := range []uint32{7, math.MaxUint32 - 1, math.MaxUint32} {
+		for _, ad := range []string{"A", "B"} {
+			for _, m := range []string{"m0", "m1"} {
+				out = append(out, cev{K: "alive", Node: "x", Inc: inc, Addr: ad, Meta: m, Vsn: "ok", Carrier: "pkt"})
+			}
+			out = append(out, cev{K: "pp", Node: "x", Inc: inc, State: "alive", Addr: ad, Meta: "m0", Vsn: "ok"})
+		}
+		out = append(out, cev{K: "alive", Node: "x", Inc: inc, Addr: "A", Meta: "m0", Vsn: "ok2", Carrier: "compound"})
+		for _, f := range []string{"o", "t", "x"} {
+			out = append(out, cev{K: "suspect", Node: "x", Inc: inc, From: f, Carrier: "pkt"})
+		}
+		for _, f := range []string{"t", "x"} {
+			out = append(out, cev{K: "dead", Node: "x", Inc: inc, From: f, Carrier: "pkt"})
+		}
+		for _, st := range []string{"suspect", "dead", "left"} {
+			out = append(out, cev{K: "pp", Node: "x", Inc: inc, State: st, Addr: "A", Meta: "m0", Vsn: "ok"})
+		}
+	}
+	out = append(out, cev{K: "advance", D: "reclaim"}, cev{K: "advance", D: "suspmax"}, cev{K: "advance", D: "gtd"}, cev{K: "reap"}, cev{K: "drain"})
+	return out
+}
+
 func TestC01(t *testing.T) {
 	rep := newReport()
 	defer rep.Write(t)
@@ -177,7 +205,7 @@ func TestC01(t *testing.T) {
 		reclaim bool
 		subj    []string
 	}
-	cfgs := []cfg{{"reclaim0", false, subjects}, {"reclaim10s", true, subjects}}
+	cfgs := []cfg{{"reclaim0", false, subjects}, {"reclaim10s", true, subjects}, {"top-incarnation-reclaim10s", true, subjects}}
 	if thorough() {
 		cfgs = append(cfgs, cfg{"two-subjects-reclaim10s", true, []string{"x", "y"}})
 	}
@@ -206,6 +234,9 @@ func TestC01(t *testing.T) {
 			capc = 2
 		}
 		sc := &swimCheck{name: "C01", wc: wc, alphabet: c01Alphabet(c.subj, capc, full), oracle: c01Oracle(c.reclaim)}
+		if strings.HasPrefix(c.name, "top-incarnation") {
+			sc.alphabet = c01AlphabetTop
+		}
 		if len(c.subj) > 1 {
 			sc.maxDept = 5
 		}
